@@ -113,6 +113,8 @@ def run_impl(p):
                 return getattr(ra, name)(**kw)
             if how == "ufunc":
                 return getattr(np, name).reduce(ra, axis=axis)
+            if axis is not None and p["vseed"] % 3 == 0:
+                return getattr(np, name)(ra, axis)        # the axis given positionally
             return getattr(np, name)(ra, axis=axis) if axis is not None else getattr(np, name)(ra)
         with np.errstate(all="ignore"), warnings.catch_warnings():
             warnings.simplefilter("ignore")
